@@ -100,3 +100,417 @@ Definition dec_dc_arith (ctx L U : Z) (s : stream) : option (Z * Z * stream) :=
       end
   end.
 End Decoder.
+
+(* ======================================================================== *)
+(* AC coefficients (jcarith.c encode_mcu_AC_first / the AC part of encode_mcu,
+   encode_mcu_AC_refine; jdarith.c decode_mcu_AC_first / decode_mcu /
+   decode_mcu_AC_refine).  Bins are relative to ac_stats[tbl]: for zigzag position
+   k: SE = 3(k-1) (end-of-band), S0 = SE+1 (zero / nonzero), SN/SP = SE+2 (first
+   magnitude decisions and, in refinement scans, the correction bit), X bins from
+   189 (k <= arith_ac_K) or 217, M bins = X + 14; the sign goes to entropy->fixed_bin. *)
+From LJT Require Import model.Seq model.Prog.
+
+Definition FIXED_BIN : Z := -1.
+Definition se_bin (k : nat) : Z := 3 * (Z.of_nat k - 1).
+Definition x_base (Kx : Z) (k : nat) : Z := if Z.of_nat k <=? Kx then 189 else 217.
+
+Fixpoint ones_at (st : Z) (j : nat) : list decision :=
+  match j with O => [] | S j' => (st, true) :: ones_at (st + 1) j' end.
+
+(* Figures F.8 / F.9 for AC: w = |v| - 1, st = SE + 2.
+   "m = 0; if (v -= 1) { encode(st,1); m = 1; v2 = v; if (v2 >>= 1) { encode(st,1); m <<= 1; st = X;
+      while (v2 >>= 1) { encode(st,1); m <<= 1; st += 1; } } }  encode(st,0);
+    st += 14; while (m >>= 1) encode(st, (m & v) ? 1 : 0);" *)
+Definition enc_mag_ac (st xb : Z) (w : Z) : list decision :=
+  if w =? 0 then [(st, false)]
+  else
+    let n := nbits w in
+    if n =? 1 then [(st, true); (st, false)]
+    else (st, true) :: (st, true) :: ones_at xb (Z.to_nat (n - 2)) ++ [(xb + (n - 2), false)]
+         ++ map (fun b => (xb + (n - 2) + 14, b)) (bits_of (Z.to_nat (n - 1)) w).
+
+Definition allz (l : list Z) : bool := forallb (Z.eqb 0) l.
+
+(* Figure F.5 with the point transform: vs = the band values sign(v)*(|v| >> Al) for zigzag
+   positions k, k+1, .., Se.  head = true at the top of the "for (k..)" loop (EOB decision due),
+   false inside the zero-run loop.  "k > ke" is "everything from k on is zero". *)
+Fixpoint enc_acf_a (Kx : Z) (vs : list Z) (k : nat) (head : bool) : list decision :=
+  match vs with
+  | [] => []
+  | v :: t =>
+      if head && allz vs then [(se_bin k, true)]
+      else
+        (if head then [(se_bin k, false)] else []) ++
+        (if v =? 0 then (se_bin k + 1, false) :: enc_acf_a Kx t (S k) false
+         else (se_bin k + 1, true) :: (FIXED_BIN, v <? 0)
+              :: enc_mag_ac (se_bin k + 2) (x_base Kx k) (Z.abs v - 1) ++ enc_acf_a Kx t (S k) true)
+  end.
+
+Definition enc_acf_block_a (Kx : Z) (Ss Se : nat) (Al : Z) (b : list Z) : list decision :=
+  enc_acf_a Kx (acf_band Ss Se Al b) Ss true.
+
+(* Figure G.10 (refinement): l = (|v| >> Al, |v| >> Ah, v < 0) for positions k.. ;
+   "k > kex" is "no coefficient from k on was nonzero at the previous stage" *)
+Fixpoint enc_acr_a (l : list (Z * Z * bool)) (k : nat) (head : bool) : list decision :=
+  match l with
+  | [] => []
+  | (a, hx, neg) :: t =>
+      if head && allz (map (fun x => fst (fst x)) l) then [(se_bin k, true)]
+      else
+        (if head && allz (map (fun x => snd (fst x)) l) then [(se_bin k, false)] else []) ++
+        (if a =? 0 then (se_bin k + 1, false) :: enc_acr_a t (S k) false
+         else if negb (a / 2 =? 0) then (se_bin k + 2, Z.odd a) :: enc_acr_a t (S k) true
+         else (se_bin k + 1, true) :: (FIXED_BIN, neg) :: enc_acr_a t (S k) true)
+  end.
+
+Definition acr_abs_a (Ss Se : nat) (Al Ah : Z) (b : list Z) : list (Z * Z * bool) :=
+  map (fun k => let v := nth (order k) b 0 in (Z.shiftr (Z.abs v) Al, Z.shiftr (Z.abs v) Ah, v <? 0)) (band_idx Ss Se).
+
+Definition enc_acr_block_a (Ss Se : nat) (Al Ah : Z) (b : list Z) : list decision :=
+  enc_acr_a (acr_abs_a Ss Se Al Ah b) Ss true.
+
+(* DC first / refine: Figure F.4 on the point-transformed value; one bit in the fixed bin *)
+Definition enc_dcr_a (Al : Z) (b : list Z) : list decision := [(FIXED_BIN, Z.testbit (nth 0%nat b 0) Al)].
+
+Section ACDecoder.
+Variable stream : Type.
+Variable next : Z -> stream -> option (bool * stream).
+Variable Kx : Z.
+Variable Se : nat.
+Variable Al : Z.
+
+(* Figures F.23 / F.24 for AC *)
+Definition dec_mag_ac (st xb : Z) (s : stream) : option (Z * stream) :=
+  match next st s with
+  | None => None
+  | Some (m0, s1) =>
+      match (if m0 then
+               match next st s1 with
+               | None => None
+               | Some (true, s2) => dec_cat stream next 16 xb 2 s2
+               | Some (false, s2) => Some (st, 1, s2)
+               end
+             else Some (st, 0, s1)) with
+      | None => None
+      | Some (st', m, s3) => dec_pattern stream next 17 (st' + 14) m m s3
+      end
+  end.
+
+(* decode_mcu_AC_first: "for (k = Ss; k <= Se; k++) { if (decode(st)) break; while (decode(st+1) == 0)
+   { st += 3; k++; if (k > Se) error } sign; magnitude; block[natural_order[k]] = v << Al }" *)
+Fixpoint dec_acf_a (fuel : nat) (k : nat) (head : bool) (blk : list Z) (s : stream) : option (list Z * stream) :=
+  match fuel with
+  | O => None
+  | S f =>
+      if (Se <? k)%nat then (if head then Some (blk, s) else None)      (* spectral overflow *)
+      else if head then
+        match next (se_bin k) s with
+        | None => None
+        | Some (true, s1) => Some (blk, s1)
+        | Some (false, s1) => dec_acf_a f k false blk s1
+        end
+      else
+        match next (se_bin k + 1) s with
+        | None => None
+        | Some (false, s1) => dec_acf_a f (S k) false blk s1
+        | Some (true, s1) =>
+            match next FIXED_BIN s1 with
+            | None => None
+            | Some (sign, s2) =>
+                match dec_mag_ac (se_bin k + 2) (x_base Kx k) s2 with
+                | None => None
+                | Some (w, s3) =>
+                    let v := if sign then - (w + 1) else w + 1 in
+                    dec_acf_a f (S k) true (upd (order k) (Z.shiftl v Al) blk) s3
+                end
+            end
+        end
+  end.
+
+(* decode_mcu_AC_refine; kexz k = "k > kex": no nonzero coefficient in the block from k to Se *)
+Definition kexz (blk : list Z) (k : nat) : bool :=
+  forallb (fun j => nth (order j) blk 0 =? 0) (seq k (S Se - k)).
+
+Fixpoint dec_acr_a (fuel : nat) (k : nat) (head : bool) (blk : list Z) (s : stream) : option (list Z * stream) :=
+  match fuel with
+  | O => None
+  | S f =>
+      if (Se <? k)%nat then (if head then Some (blk, s) else None)
+      else
+        match (if head && kexz blk k then
+                 match next (se_bin k) s with
+                 | None => None
+                 | Some (eob, s1) => Some (eob, s1)
+                 end
+               else Some (false, s)) with
+        | None => None
+        | Some (true, s1) => Some (blk, s1)
+        | Some (false, s1) =>
+            let c := nth (order k) blk 0 in
+            if negb (c =? 0) then
+              match next (se_bin k + 2) s1 with
+              | None => None
+              | Some (bit, s2) =>
+                  dec_acr_a f (S k) true
+                    (if bit then upd (order k) (if c <? 0 then c - p1 Al else c + p1 Al) blk else blk) s2
+              end
+            else
+              match next (se_bin k + 1) s1 with
+              | None => None
+              | Some (false, s2) => dec_acr_a f (S k) false blk s2
+              | Some (true, s2) =>
+                  match next FIXED_BIN s2 with
+                  | None => None
+                  | Some (sign, s3) => dec_acr_a f (S k) true (upd (order k) (if sign then - p1 Al else p1 Al) blk) s3
+                  end
+              end
+        end
+  end.
+
+Definition dec_dcr_a (blk : list Z) (s : stream) : option (list Z * stream) :=
+  match next FIXED_BIN s with
+  | None => None
+  | Some (bit, s1) => Some (if bit then upd 0 (Z.lor (nth 0%nat blk 0) (Z.shiftl 1 Al)) blk else blk, s1)
+  end.
+End ACDecoder.
+
+(* ======================================================================== *)
+(* Whole arithmetic-coded scans: the QM coder is C04's model (model/T81Arith.v, imported
+   read-only): per restart interval the decisions of all MCUs go through qm_encode_all
+   (statistics, dc_context, last_dc_val start from zero: start_pass / emit_restart ->
+   process_restart), the bytes are stuffed, intervals are separated by RSTn.  Statistics
+   areas: dc_stats[tbl] = keys dck tbl i, ac_stats[tbl] = keys ack tbl i, fixed_bin = FIXED. *)
+From LJT Require Import model.T81Arith.
+
+Record acomp := { a_dct : Z; a_act : Z; a_L : Z; a_U : Z; a_K : Z }.
+Definition acomp0 : acomp := {| a_dct := 0; a_act := 0; a_L := 0; a_U := 1; a_K := 5 |}.
+
+Definition rekey (base : Z -> Z) (ds : list decision) : list decision :=
+  map (fun d => (if fst d =? FIXED_BIN then FIXED else base (fst d), snd d)) ds.
+Definition next_k (base : Z -> Z) (st : Z) (q : qdec) : option (bool * qdec) :=
+  qm_decode (if st =? FIXED_BIN then FIXED else base st) q.
+
+(* (JCOEF) of an int: two's complement 16 bit *)
+Definition s16 (x : Z) : Z := let y := x mod 65536 in if y >=? 32768 then y - 65536 else y.
+
+Section AScan.
+Variables M D R : Type.
+Variable enc_seg : list M -> option (list decision).
+Variable dec_seg : list D -> qdec -> option (list R).
+
+Fixpoint aenc_segs (fuel Ri : nat) (n : Z) (ms : list M) : option (list Z) :=
+  match fuel with
+  | O => None
+  | S f =>
+      match enc_seg (seg_take Ri ms) with
+      | None => None
+      | Some ds =>
+          let bytes := stuff (qm_encode_all ds) in
+          match seg_drop Ri ms with
+          | [] => Some bytes
+          | nxt => match aenc_segs f Ri ((n + 1) mod 8) nxt with
+                   | None => None
+                   | Some rest => Some (bytes ++ [255; 208 + n] ++ rest)
+                   end
+          end
+      end
+  end.
+Definition aenc_scan (Ri : nat) (ms : list M) : option (list Z) := aenc_segs (S (length ms)) Ri 0 ms.
+
+Fixpoint adec_segs (fuel Ri : nat) (n : Z) (ds : list D) (bytes : list Z) : option (list R) :=
+  match fuel with
+  | O => None
+  | S f =>
+      let (data, rest) := load_seg bytes in
+      match dec_seg (seg_take Ri ds) (qm_init_dec data) with
+      | None => None
+      | Some rs =>
+          match seg_drop Ri ds with
+          | [] => Some rs
+          | nxt =>
+              match rest with
+              | 255 :: m :: rest' =>
+                  if m =? 208 + n then
+                    match adec_segs f Ri ((n + 1) mod 8) nxt rest' with
+                    | None => None
+                    | Some more => Some (rs ++ more)
+                    end
+                  else None
+              | _ => None
+              end
+          end
+      end
+  end.
+Definition adec_scan (Ri : nat) (ds : list D) (bytes : list Z) : option (list R) := adec_segs (S (length ds)) Ri 0 ds bytes.
+End AScan.
+
+Section AProcs.
+Variable cs : list acomp.               (* per scan component *)
+Variable mem : list nat.                (* MCU_membership *)
+Definition cmp (ci : nat) : acomp := nth ci cs acomp0.
+
+(* ---- sequential: encode_mcu / decode_mcu ---- *)
+Fixpoint aseq_enc_mcu (mm : list nat) (blocks : list (list Z)) (ldc ctx : list Z)
+  : option (list decision * list Z * list Z) :=
+  match mm, blocks with
+  | [], [] => Some ([], ldc, ctx)
+  | ci :: mt, b :: bt =>
+      let c := cmp ci in
+      let v := nth 0%nat b 0 - nthZ ldc ci in
+      let '(dcd, ctx') := enc_dc_arith (nthZ ctx ci) (a_L c) (a_U c) v in
+      let acd := enc_acf_block_a (a_K c) 1 63 0 b in
+      match aseq_enc_mcu mt bt (upd ci (nth 0%nat b 0) ldc) (upd ci ctx' ctx) with
+      | None => None
+      | Some (rest, l', c') => Some (rekey (dck (a_dct c)) dcd ++ rekey (ack (a_act c)) acd ++ rest, l', c')
+      end
+  | _, _ => None
+  end.
+
+Fixpoint aseq_enc_mcus (ms : list (list (list Z))) (ldc ctx : list Z) : option (list decision) :=
+  match ms with
+  | [] => Some []
+  | m :: t => match aseq_enc_mcu mem m ldc ctx with
+              | None => None
+              | Some (ds, l', c') => match aseq_enc_mcus t l' c' with None => None | Some r => Some (ds ++ r) end
+              end
+  end.
+
+Fixpoint aseq_dec_mcu (mm : list nat) (ldc ctx : list Z) (q : qdec) : option (list (list Z) * list Z * list Z * qdec) :=
+  match mm with
+  | [] => Some ([], ldc, ctx, q)
+  | ci :: mt =>
+      let c := cmp ci in
+      match dec_dc_arith qdec (next_k (dck (a_dct c))) (nthZ ctx ci) (a_L c) (a_U c) q with
+      | None => None
+      | Some (v, ctx', q1) =>
+          let d := (nthZ ldc ci + v) mod 65536 in
+          match dec_acf_a qdec (next_k (ack (a_act c))) (a_K c) 63 0 130 1 true (upd 0 (s16 d) (repeat 0 64)) q1 with
+          | None => None
+          | Some (blk, q2) =>
+              match aseq_dec_mcu mt (upd ci d ldc) (upd ci ctx' ctx) q2 with
+              | None => None
+              | Some (bl, l', c', q3) => Some (blk :: bl, l', c', q3)
+              end
+          end
+      end
+  end.
+
+Fixpoint aseq_dec_mcus (n : nat) (ldc ctx : list Z) (q : qdec) : option (list (list (list Z))) :=
+  match n with
+  | O => Some []
+  | S k => match aseq_dec_mcu mem ldc ctx q with
+           | None => None
+           | Some (m, l', c', q') => match aseq_dec_mcus k l' c' q' with None => None | Some r => Some (m :: r) end
+           end
+  end.
+
+(* ---- DC first: encode_mcu_DC_first / decode_mcu_DC_first ---- *)
+Variable Al : Z.
+Fixpoint adcf_enc_mcu (mm : list nat) (blocks : list (list Z)) (ldc ctx : list Z)
+  : option (list decision * list Z * list Z) :=
+  match mm, blocks with
+  | [], [] => Some ([], ldc, ctx)
+  | ci :: mt, b :: bt =>
+      let c := cmp ci in
+      let m := pt_dc Al (nth 0%nat b 0) in
+      let '(dcd, ctx') := enc_dc_arith (nthZ ctx ci) (a_L c) (a_U c) (m - nthZ ldc ci) in
+      match adcf_enc_mcu mt bt (upd ci m ldc) (upd ci ctx' ctx) with
+      | None => None
+      | Some (rest, l', c') => Some (rekey (dck (a_dct c)) dcd ++ rest, l', c')
+      end
+  | _, _ => None
+  end.
+Fixpoint adcf_enc_mcus (ms : list (list (list Z))) (ldc ctx : list Z) : option (list decision) :=
+  match ms with
+  | [] => Some []
+  | m :: t => match adcf_enc_mcu mem m ldc ctx with
+              | None => None
+              | Some (ds, l', c') => match adcf_enc_mcus t l' c' with None => None | Some r => Some (ds ++ r) end
+              end
+  end.
+Fixpoint adcf_dec_mcu (mm : list nat) (cur : list (list Z)) (ldc ctx : list Z) (q : qdec)
+  : option (list (list Z) * list Z * list Z * qdec) :=
+  match mm, cur with
+  | [], [] => Some ([], ldc, ctx, q)
+  | ci :: mt, blk :: ct =>
+      let c := cmp ci in
+      match dec_dc_arith qdec (next_k (dck (a_dct c))) (nthZ ctx ci) (a_L c) (a_U c) q with
+      | None => None
+      | Some (v, ctx', q1) =>
+          let d := (nthZ ldc ci + v) mod 65536 in
+          match adcf_dec_mcu mt ct (upd ci d ldc) (upd ci ctx' ctx) q1 with
+          | None => None
+          | Some (bl, l', c', q2) => Some (upd 0 (s16 (Z.shiftl d Al)) blk :: bl, l', c', q2)
+          end
+      end
+  | _, _ => None
+  end.
+Fixpoint adcf_dec_mcus (cur : list (list (list Z))) (ldc ctx : list Z) (q : qdec) : option (list (list (list Z))) :=
+  match cur with
+  | [] => Some []
+  | c :: t => match adcf_dec_mcu mem c ldc ctx q with
+              | None => None
+              | Some (m, l', c', q') => match adcf_dec_mcus t l' c' q' with None => None | Some r => Some (m :: r) end
+              end
+  end.
+
+(* ---- DC refine ---- *)
+Definition adcr_enc_mcus (ms : list (list (list Z))) : option (list decision) :=
+  Some (rekey (fun x => x) (flat_map (fun m => flat_map (enc_dcr_a Al) m) ms)).
+Fixpoint adcr_dec_blocks (cur : list (list Z)) (q : qdec) : option (list (list Z) * qdec) :=
+  match cur with
+  | [] => Some ([], q)
+  | blk :: t => match dec_dcr_a qdec (next_k (fun x => x)) Al blk q with
+                | None => None
+                | Some (b', q1) => match adcr_dec_blocks t q1 with None => None | Some (r, q2) => Some (b' :: r, q2) end
+                end
+  end.
+Fixpoint adcr_dec_mcus (cur : list (list (list Z))) (q : qdec) : option (list (list (list Z))) :=
+  match cur with
+  | [] => Some []
+  | c :: t => match adcr_dec_blocks c q with
+              | None => None
+              | Some (m, q1) => match adcr_dec_mcus t q1 with None => None | Some r => Some (m :: r) end
+              end
+  end.
+
+(* ---- AC first / AC refine (one component, one block per MCU) ---- *)
+Variables Ss Se : nat.
+Variable Ah : Z.
+Definition aacf_enc_blocks (bl : list (list Z)) : option (list decision) :=
+  Some (flat_map (fun b => rekey (ack (a_act (cmp 0))) (enc_acf_block_a (a_K (cmp 0)) Ss Se Al b)) bl).
+Fixpoint aacf_dec_blocks (cur : list (list Z)) (q : qdec) : option (list (list Z)) :=
+  match cur with
+  | [] => Some []
+  | blk :: t => match dec_acf_a qdec (next_k (ack (a_act (cmp 0)))) (a_K (cmp 0)) Se Al 130 Ss true blk q with
+                | None => None
+                | Some (b', q1) => match aacf_dec_blocks t q1 with None => None | Some r => Some (b' :: r) end
+                end
+  end.
+Definition aacr_enc_blocks (bl : list (list Z)) : option (list decision) :=
+  Some (flat_map (fun b => rekey (ack (a_act (cmp 0))) (enc_acr_block_a Ss Se Al Ah b)) bl).
+Fixpoint aacr_dec_blocks (cur : list (list Z)) (q : qdec) : option (list (list Z)) :=
+  match cur with
+  | [] => Some []
+  | blk :: t => match dec_acr_a qdec (next_k (ack (a_act (cmp 0)))) Se Al 65 Ss true blk q with
+                | None => None
+                | Some (b', q1) => match aacr_dec_blocks t q1 with None => None | Some r => Some (b' :: r) end
+                end
+  end.
+End AProcs.
+
+(* scans *)
+Definition aseq_enc_scan cs mem (ncomp Ri : nat) ms :=
+  aenc_scan _ (fun seg => aseq_enc_mcus cs mem seg (repeat 0 ncomp) (repeat 0 ncomp)) Ri ms.
+Definition aseq_dec_scan cs mem (ncomp Ri nmcu : nat) bytes :=
+  adec_scan unit _ (fun seg q => aseq_dec_mcus cs mem (length seg) (repeat 0 ncomp) (repeat 0 ncomp) q) Ri (repeat tt nmcu) bytes.
+Definition adcf_enc_scan cs mem Al (ncomp Ri : nat) ms :=
+  aenc_scan _ (fun seg => adcf_enc_mcus cs mem Al seg (repeat 0 ncomp) (repeat 0 ncomp)) Ri ms.
+Definition adcf_dec_scan cs mem Al (ncomp Ri : nat) cur bytes :=
+  adec_scan _ _ (fun seg q => adcf_dec_mcus cs mem Al seg (repeat 0 ncomp) (repeat 0 ncomp) q) Ri cur bytes.
+Definition adcr_enc_scan Al (Ri : nat) ms := aenc_scan _ (adcr_enc_mcus Al) Ri ms.
+Definition adcr_dec_scan Al (Ri : nat) cur bytes := adec_scan _ _ (adcr_dec_mcus Al) Ri cur bytes.
+Definition aacf_enc_scan cs Al Ss Se (Ri : nat) bl := aenc_scan _ (aacf_enc_blocks cs Al Ss Se) Ri bl.
+Definition aacf_dec_scan cs Al Ss Se (Ri : nat) cur bytes := adec_scan _ _ (aacf_dec_blocks cs Al Ss Se) Ri cur bytes.
+Definition aacr_enc_scan cs Al Ss Se Ah (Ri : nat) bl := aenc_scan _ (aacr_enc_blocks cs Al Ss Se Ah) Ri bl.
+Definition aacr_dec_scan cs Al Ss Se (Ri : nat) cur bytes := adec_scan _ _ (aacr_dec_blocks cs Al Ss Se) Ri cur bytes.
